@@ -30,17 +30,25 @@ type scase struct {
 	// Amp: the handler derives Amp*1000 child contexts from the call's context right before it returns
 	// (a handler with per-item worker contexts) — cancelling the stream context then takes long enough for
 	// the internal order of Close to become observable by a client parked in RecvMsg.
-	// Reuse: both sides reuse one message object for all their sends and overwrite it right after SendMsg returns.
+	// Reuse: both sides reuse one message object for all their sends and overwrite it right after SendMsg returns
+	// (modelled: the driver gets the flag; the legacy model answers with the overwritten payload 99).
+	// Async: the client's cancel is NOT held back until the handler is quiescent: it fires at its script
+	// position whatever is in flight (compared with the model's SET of possible transcripts).
+	Async bool `json:"async,omitempty"`
 	Amp   int  `json:"amp,omitempty"`
 	Reuse bool `json:"reuse,omitempty"`
 }
 
 func (c scase) key() string {
-	return fmt.Sprintf("%s amp=%d reuse=%v", c.args(), c.Amp, c.Reuse)
+	return fmt.Sprintf("%s amp=%d async=%v", c.args(), c.Amp, c.Async)
 }
 
 func (c scase) args() string {
-	return c.Shape + " " + c.Out + " " + c.Srv + " " + c.Fin + " " + c.Cli
+	r := "0"
+	if c.Reuse {
+		r = "1"
+	}
+	return c.Shape + " " + c.Out + " " + c.Srv + " " + c.Fin + " " + c.Cli + " " + r
 }
 
 type pair struct{ k, v string }
